@@ -23,6 +23,46 @@ type Case struct {
 	V       *gen.TV `json:"v"`
 	PathSep bool    `json:"pathsep,omitempty"`
 	VarExp  bool    `json:"varexp,omitempty"` // VarExp on: strings with '$' are not generated then
+	// AltTags: the fields carry a second tag set `alt:"..."` with other names (the same flags); the round trip is
+	// made under the default tag name and under ucfg.StructTag("alt"), in the order AltFirst says - the same Go
+	// type is used under two tag names in one process
+	AltTags  bool `json:"alttags,omitempty"`
+	AltFirst bool `json:"altfirst,omitempty"`
+}
+
+// addAlt gives every field a second tag set: the names are permuted among the named fields of each struct or
+// prefixed, the inline/ignore flags are kept.
+func addAlt(td *gen.TD, swap bool) {
+	if td == nil {
+		return
+	}
+	addAlt(td.Elem, swap)
+	if td.Kind != "struct" {
+		return
+	}
+	var named []int
+	for i := range td.Fields {
+		f := &td.Fields[i]
+		addAlt(f.T, swap)
+		switch {
+		case f.Inline:
+			f.Alt = ",inline"
+		case f.Ignore:
+			f.Alt = "x" + f.ConfigName() + ",ignore"
+		case f.Unexp:
+		default:
+			named = append(named, i)
+		}
+	}
+	for k, i := range named {
+		f := &td.Fields[i]
+		name := "q" + f.ConfigName()
+		if swap && len(named) > 1 {
+			// the config name of the next named field: the two tag sets name different fields alike
+			name = td.Fields[named[(k+1)%len(named)]].ConfigName()
+		}
+		f.Alt = name
+	}
 }
 
 func hasDollar(tv *gen.TV) bool {
@@ -56,6 +96,11 @@ func genCase(t *rapid.T) Case {
 		c.T.Fields = append(c.T.Fields, gen.FD{Name: "IM", Inline: true, T: &gen.TD{Kind: "map", Elem: &gen.TD{Kind: "iface"}}})
 	}
 	c.V = gen.GenTV(t, cfg, c.T, false)
+	if rapid.IntRange(0, 2).Draw(t, "alttags") == 0 {
+		c.AltTags = true
+		c.AltFirst = rapid.Bool().Draw(t, "altfirst")
+		addAlt(c.T, rapid.Bool().Draw(t, "altswap"))
+	}
 	return c
 }
 
@@ -207,27 +252,43 @@ func runCase(c Case, r *runlog.R) error {
 		r.Discard()
 		return nil
 	}
-	in := c.T.New(c.V)
-	var cfg *ucfg.Config
-	err := uc.Safe("NewFrom", func() (e error) { cfg, e = ucfg.NewFrom(in.Interface(), opts...); return })
-	if err != nil {
-		return fmt.Errorf("NewFrom(%v = %s) failed: %v", in.Type().Elem(), gen.Show(in.Elem()), err)
+	trips := [][]ucfg.Option{opts}
+	if c.AltTags {
+		alt := append(append([]ucfg.Option{}, opts...), ucfg.StructTag("alt"))
+		trips = [][]ucfg.Option{opts, alt, opts}
+		if c.AltFirst {
+			trips = [][]ucfg.Option{alt, opts, alt}
+		}
 	}
-	out := reflect.New(in.Type().Elem())
-	err = uc.Safe("Unpack", func() error { return cfg.Unpack(out.Interface(), opts...) })
-	if err != nil {
-		return fmt.Errorf("Unpack into zero %v failed: %v\n value %s", in.Type().Elem(), err, gen.Show(in.Elem()))
+	var want reflect.Value
+	for ti, topts := range trips {
+		what := "under the default tag name"
+		if len(topts) > len(opts) {
+			what = "under StructTag(\"alt\")"
+		}
+		in := c.T.New(c.V)
+		var cfg *ucfg.Config
+		err := uc.Safe("NewFrom", func() (e error) { cfg, e = ucfg.NewFrom(in.Interface(), topts...); return })
+		if err != nil {
+			return fmt.Errorf("round trip %d %s: NewFrom(%v = %s) failed: %v", ti, what, in.Type().Elem(), gen.Show(in.Elem()), err)
+		}
+		out := reflect.New(in.Type().Elem())
+		err = uc.Safe("Unpack", func() error { return cfg.Unpack(out.Interface(), topts...) })
+		if err != nil {
+			return fmt.Errorf("round trip %d %s: Unpack into zero %v failed: %v\n value %s", ti, what, in.Type().Elem(), err, gen.Show(in.Elem()))
+		}
+		want = c.T.New(c.V)
+		clearSkipped(c.T, want.Elem())
+		if !gen.EqualValues(want.Elem(), out.Elem()) {
+			return fmt.Errorf("round trip %d %s changed the value\n type %v\n in   %s\n out  %s", ti, what, in.Type().Elem(), gen.Show(want.Elem()), gen.Show(out.Elem()))
+		}
+		// the source value itself must not have been modified by NewFrom
+		orig := c.T.New(c.V)
+		if !gen.EqualValues(orig.Elem(), in.Elem()) {
+			return fmt.Errorf("NewFrom modified its argument\n before %s\n after  %s", gen.Show(orig.Elem()), gen.Show(in.Elem()))
+		}
 	}
-	want := c.T.New(c.V)
-	clearSkipped(c.T, want.Elem())
-	if !gen.EqualValues(want.Elem(), out.Elem()) {
-		return fmt.Errorf("round trip changed the value\n type %v\n in   %s\n out  %s", in.Type().Elem(), gen.Show(want.Elem()), gen.Show(out.Elem()))
-	}
-	// the source value itself must not have been modified by NewFrom
-	orig := c.T.New(c.V)
-	if !gen.EqualValues(orig.Elem(), in.Elem()) {
-		return fmt.Errorf("NewFrom modified its argument\n before %s\n after  %s", gen.Show(orig.Elem()), gen.Show(in.Elem()))
-	}
+	r.ClassIf(c.AltTags, "second tag set (StructTag)")
 	tagged := f.inline || f.ignore || f.unexp || f.dotted || f.emptyTag || f.numericTag
 	r.ClassIf(f.numericTag, "numeric config name")
 	r.NonTrivialIf((f.levels >= 2 || tagged) && anyNonZero(want.Elem()))
@@ -251,7 +312,7 @@ func runCase(c Case, r *runlog.R) error {
 
 var subRT = runlog.Register(&runlog.Sub[Case]{
 	Name: "struct-roundtrip",
-	Rule: "random struct types (reflect.StructOf over all primitive kinds, named variants, durations, regexps, pointers, slices, arrays, string-keyed maps, nested and inline structs; tags: rename, rename to a number, dotted with PathSep, inline, ignore, unexported, no name) with values biased to zero values, type extremes, NaN/-0/Inf, nil vs empty collections and strings with $ . , { }; Unpack(NewFrom(v)) into a zero value must equal v (nil == empty collection, regexps by source, pointer chains by pointee, ignored/unexported fields zero). Non-trivial: the type has >= 2 levels or a tag other than a plain rename, and the value has a non-zero leaf. Distinct: hash of (type, value, options).",
+	Rule: "random struct types (reflect.StructOf over all primitive kinds, named variants, durations, regexps, pointers, slices, arrays, string-keyed maps, nested and inline structs; tags: rename, rename to a number, dotted with PathSep, inline, ignore, unexported, no name) with values biased to zero values, type extremes, NaN/-0/Inf, nil vs empty collections and strings with $ . , { }; Unpack(NewFrom(v)) into a zero value must equal v; a third of the types carry a second tag set and are round-tripped under the default tag name and under StructTag(alt) alternately in one process (nil == empty collection, regexps by source, pointer chains by pointee, ignored/unexported fields zero). Non-trivial: the type has >= 2 levels or a tag other than a plain rename, and the value has a non-zero leaf. Distinct: hash of (type, value, options).",
 	Gen:  genCase,
 	Run:  runCase,
 })
